@@ -420,7 +420,29 @@ def solvewall_facts(src):
     kw = {k.arg: k.value for k in call.keywords}
     if "xtol" not in kw:
         raise TranslateError("root_scalar is called without xtol")
-    ex_x = Expr(src, {"self.errTol": "errTol"})
+    alldefs = {}
+    for s_ in ast.walk(fn):
+        if isinstance(s_, ast.Assign) and len(s_.targets) == 1 and \
+                isinstance(s_.targets[0], ast.Name):
+            alldefs.setdefault(s_.targets[0].id, []).append(s_.value)
+    # locals with exactly one (scalar) definition may be inlined; tuple unpacking, loop
+    # variables and re-assigned names never are
+    tainted = set()
+    for s_ in ast.walk(fn):
+        tg = []
+        if isinstance(s_, ast.Assign):
+            tg = [t for t in s_.targets if not isinstance(t, ast.Name)] + \
+                 (list(s_.targets) if len(s_.targets) > 1 else [])
+        elif isinstance(s_, (ast.AugAssign, ast.AnnAssign, ast.For, ast.NamedExpr)):
+            tg = [s_.target]
+        elif isinstance(s_, ast.With):
+            tg = [i.optional_vars for i in s_.items if i.optional_vars is not None]
+        elif isinstance(s_, (ast.FunctionDef, ast.Lambda)):
+            tainted.update(a.arg for a in s_.args.args)
+        for t in tg:
+            tainted.update(n.id for n in ast.walk(t) if isinstance(n, ast.Name))
+    single = {nm: ds[0] for nm, ds in alldefs.items() if len(ds) == 1 and nm not in tainted}
+    ex_x = Expr(src, {"self.errTol": "errTol"}, single)
     xtol = ex_x.num(kw["xtol"])
     extra_kw = sorted(k for k in kw if k not in ("method", "bracket", "xtol"))
     method = kw.get("method")
@@ -463,7 +485,7 @@ def solvewall_facts(src):
         if len(ds) == 1 and src_of(ds[0], src).endswith(".root"):
             rootnames[nm] = "root"
             rootnames[src_of(ds[0], src)] = "root"
-    ex_v = Expr(src, dict({"self.errTol": "errTol"}, **rootnames))
+    ex_v = Expr(src, dict({"self.errTol": "errTol"}, **rootnames), single)
     velerr = ex_v.num(defs[minname][0])
     # off-equilibrium branch: max(minError, ...) -- bounded below by minError
     off_ok = all(isinstance(d, ast.Call) and src_of(d.func, src) == "max" and any(
@@ -495,7 +517,7 @@ def solvewall_facts(src):
             else:
                 raise TranslateError("pressAbsErrTol depends on %s, which is not the "
                                      "pressure at an end of the bracket" % n.id)
-    atol2 = Expr(src, aenv).num(stores[1][1].value)
+    atol2 = Expr(src, aenv, single).num(stores[1][1].value)
     # the second store must come after the doubling loop and before the root finder
     idx_while = [i for i, s in enumerate(body) if isinstance(s, ast.While)]
     idx_root = [i for i, s in enumerate(body)
